@@ -37,6 +37,7 @@ contract:
 __CPROVER_requires(total_sz <= 65535 && __CPROVER_is_fresh(buffer, total_sz))
 __CPROVER_requires(__CPROVER_is_fresh(this, sizeof(*this)))
 __CPROVER_assigns(*this)
+%(post)s
 end
 %(loops)s
 %(mutant)s
@@ -116,6 +117,8 @@ TABLE += [
  dict(cls='RTP', src='src/rtp.cpp', hdr='include/tins/rtp.h', structs=['rtp_header', 'rtp_extension_header'], members='rtp_header header_; rtp_extension_header ext_header_; uint8_t padding_size_;',
       memberlist='members: header_ ext_header_ padding_size_ csrc_ids_ ext_data_',
       funcs=[('csrc_count', 'uint8_t'), ('extension_bit', 'uint8_t'), ('padding_bit', 'uint8_t'), ('padding_size', 'uint8_t'), ('extension_length', 'uint16_t')],
+      inits='inits: lower',
+      post='/* every field a getter hands out is determined by the input: without the extension bit the extension header reads as in a default-constructed RTP (all zero), not as whatever the object\'s memory held */\n__CPROVER_ensures(RTP_extension_bit(this) == 1 || (this->ext_header_.profile == 0 && this->ext_header_.length == 0))',
       rules='rule: small_uint<4> csrc_count_ ==> uint8_t csrc_count_\nrule: this->csrc_ids_\\.push_back\\(csrc_id\\); ==> (void)csrc_id;\nrule: this->ext_data_\\.push_back\\(data\\); ==> (void)data;',
       loops='loop 0:\n__CPROVER_assigns(i, stream)\n__CPROVER_loop_invariant(i <= csrc_count_ && __CPROVER_same_object(stream.buffer_, buffer) && __CPROVER_POINTER_OFFSET(stream.buffer_) >= 0 && __CPROVER_POINTER_OFFSET(stream.buffer_) <= total_sz && stream.size_ <= total_sz && __CPROVER_POINTER_OFFSET(stream.buffer_) + stream.size_ <= total_sz)\n__CPROVER_decreases(csrc_count_ - i)\nend\nloop 1:\n__CPROVER_assigns(i, stream)\n__CPROVER_loop_invariant(i <= 65535 && __CPROVER_same_object(stream.buffer_, buffer) && __CPROVER_POINTER_OFFSET(stream.buffer_) >= 0 && __CPROVER_POINTER_OFFSET(stream.buffer_) <= total_sz && stream.size_ <= total_sz && __CPROVER_POINTER_OFFSET(stream.buffer_) + stream.size_ <= total_sz)\n__CPROVER_decreases(65536 - i)\nend',
       ),
@@ -162,7 +165,7 @@ TABLE += [
              '\n//@ func src/icmpv6.cpp ICMPv6::has_options\nsig: static _Bool ICMPv6_has_options(const ICMPv6* this)\nclass: ICMPv6 include/tins/icmpv6.h\nmembers: header_\n//@ endfunc'
              '\n//@ func src/icmpv6.cpp ICMPv6::are_extensions_allowed\nsig: static _Bool ICMPv6_are_extensions_allowed(const ICMPv6* this)\nclass: ICMPv6 include/tins/icmpv6.h\nmembers: header_\n//@ endfunc'
              '\n//@ func src/icmpv6.cpp ICMPv6::try_parse_extensions\nsig: static void ICMPv6_try_parse_extensions(ICMPv6* this, IMS* stream)\nclass: ICMPv6 include/tins/icmpv6.h\nmembers: header_ extensions_\nrule: Internals_try_parse_icmp_extensions\\(stream, (.*?),\\s*this->extensions_\\); ==> Internals_try_parse_icmp_extensions(stream, \\1);\n//@ endfunc',
-      rules='rule: this->mlqm_ = 0; ==> memset(&this->mlqm_, 0, sizeof(this->mlqm_)); /* mlqm_() value-initialisation */\n'
+      rules='rule?: this->mlqm_ = 0; ==> memset(&this->mlqm_, 0, sizeof(this->mlqm_)); /* mlqm_() value-initialisation (done by the init-list lowering now) */\n'
             'rule: this->target_address_ = IMS_read_ipaddress_type\\(&stream\\); ==> { V6 a_ = IMS_read_v6(&stream); memcpy(this->target_address_, a_.b, 16); }\n'
             'rule: this->dest_address_ = IMS_read_ipaddress_type\\(&stream\\); ==> { V6 a_ = IMS_read_v6(&stream); memcpy(this->dest_address_, a_.b, 16); }\n'
             'rule: this->multicast_records_\\.push_back\\(\\s*multicast_address_record\\(IMS_pointer\\(&stream\\), IMS_size\\(&stream\\)\\)\\s*\\);\\s*IMS_skip\\(&stream, this->multicast_records_\\.back\\(\\)\\.size\\(\\)\\); ==> { size_t rec_size_ = tins_mar_ctor(IMS_pointer(&stream), IMS_size(&stream)); IMS_skip(&stream, rec_size_); }\n'
@@ -186,7 +189,7 @@ def generate(outdir, tier):
                  newdecls='\n'.join(NEW % n for n in e.get('news', []) if n != 'RawPDU'),
                  funcs='\n'.join(getter(cls, e['hdr'], n, r) for n, r in e.get('funcs', [])) + '\n' + e.get('xfuncs', ''),
                  anch=''.join(', %s::%s' % (cls, n) for n, r in e.get('funcs', [])),
-                 rules=e.get('rules', ''), inits=e.get('inits', ''), mutant=e.get('mutant', ''), xreplace=e.get('xreplace', ''),
+                 rules=e.get('rules', ''), inits=e.get('inits', ''), mutant=e.get('mutant', ''), post=e.get('post', ''), xreplace=e.get('xreplace', ''),
                  predecl=e.get('predecl', ''), loops=e.get('loops', ''), hdrx=e.get('hdrx', ''), memberlist=e.get('memberlist', ''),
                  ctor_match=e.get('ctor_match', 'const uint8_t* buffer, uint32_t total_sz'), extra_params=e.get('extra_params', ''), extra_args=e.get('extra_args', ''), extra_decl=e.get('extra_decl', ''))
         p = os.path.join(outdir, 'ctor_%s.unit' % cls)
